@@ -107,6 +107,73 @@ class Recorder:
         )
 
 
+class Reach:
+    """Which lines of the eyecite package this shard really executed (sys.monitoring LINE events that
+    disable themselves after the first hit: close to free). Reported in the evidence so that a reader can
+    see which of the anchored mechanisms the workload reached - and which it did not."""
+
+    def __init__(self):
+        self.hit = {}
+        self.ok = False
+
+    def start(self):
+        try:
+            self.mon = sys.monitoring
+            self.tid = self.mon.COVERAGE_ID
+            self.mon.use_tool_id(self.tid, "vmon-reach")
+            root = os.path.realpath(os.path.join(REPO, "eyecite")) + os.sep
+            hit, disable = self.hit, self.mon.DISABLE
+
+            def on_line(code, line):
+                f = code.co_filename
+                if f.startswith(root):
+                    hit.setdefault(f[len(root):], set()).add(line)
+                return disable
+
+            self.mon.register_callback(self.tid, self.mon.events.LINE, on_line)
+            self.mon.set_events(self.tid, self.mon.events.LINE)
+            self.ok = True
+        except Exception:
+            self.ok = False
+
+    def stop(self):
+        if self.ok:
+            try:
+                self.mon.set_events(self.tid, 0)
+                self.mon.register_callback(self.tid, self.mon.events.LINE, None)
+                self.mon.free_tool_id(self.tid)
+            except Exception:
+                pass
+
+    def dump(self):
+        return {f: sorted(v) for f, v in self.hit.items()}
+
+
+def executable_lines():
+    """{file: {function qualname: set(lines)}} for the eyecite package under test."""
+    import types
+    out = {}
+    root = os.path.join(REPO, "eyecite")
+    for fn in sorted(os.listdir(root)):
+        if not fn.endswith(".py") or fn == "test_factories.py":
+            continue
+        try:
+            code = compile(open(os.path.join(root, fn), encoding="utf8").read(), fn, "exec")
+        except Exception:
+            continue
+        funcs = {}
+
+        def walk(c, name):
+            lines = {l for _, _, l in c.co_lines() if l}
+            funcs.setdefault(name, set()).update(lines)
+            for k in c.co_consts:
+                if isinstance(k, types.CodeType):
+                    walk(k, (name + "." if name != "<module>" else "") + k.co_name)
+        walk(code, "<module>")
+        out[fn] = funcs
+    return out
+
+
 def jsonable(o):
     return json.loads(json.dumps(o, default=repr, ensure_ascii=True))
 
@@ -137,13 +204,17 @@ def shard_main(argv):
     rec = Recorder(prop, tier, seed, spec)
     rec.classify = getattr(mod, "classify", None)
     t0 = time.time()
+    reach = Reach()
+    reach.start()
     try:
         mod.run_shard(spec, rec)
         status = "ok"
     except BaseException:  # noqa
         status = "crash"
         rec.note("shard crashed: " + traceback.format_exc()[-1500:])
+    reach.stop()
     d = rec.dump()
+    d["reach"] = reach.dump()
     d["status"] = status
     d["wall_s"] = time.time() - t0
     with open(out, "w") as f:
@@ -261,6 +332,8 @@ def aggregate(prop, tier, seed, mod, results):
         for k, v in r["viol_counts"].items():
             agg["viol_counts"][k] = agg["viol_counts"].get(k, 0) + v
         agg["notes"].extend(r.get("notes", []))
+        for f, lines in (r.get("reach") or {}).items():
+            agg.setdefault("reach", {}).setdefault(f, set()).update(lines)
     return agg
 
 
@@ -327,6 +400,21 @@ def report(prop, tier, seed, mod, agg, wall):
     )
     if agg["notes"]:
         cov["notes"] = agg["notes"][:10]
+    try:
+        ex = executable_lines()
+        anchors = set(getattr(mod, "ANCHOR_FILES", ()))
+        reach = {}
+        for f, funcs in ex.items():
+            hit = agg.get("reach", {}).get(f, set())
+            body = {q: ls for q, ls in funcs.items() if q != "<module>"}
+            tot = set().union(*body.values()) if body else set()
+            unreached = sorted(q for q, ls in body.items() if ls and not (ls & hit) and not q.endswith(("__repr__", "<lambda>", "<listcomp>", "<genexpr>", "<dictcomp>", "<setcomp>"))
+                               and not q.rsplit(".", 1)[-1][:1].isupper())
+            reach[f] = dict(function_lines_executed=len(tot & hit), function_lines_total=len(tot),
+                            functions_never_entered=unreached[:25])
+        cov["eyecite_code_reached"] = reach
+    except Exception as e:  # evidence nicety only
+        cov["eyecite_code_reached"] = {"error": str(e)[:100]}
     ev = dict(
         property_id=prop,
         tier=tier,
